@@ -57,6 +57,21 @@ def real_load(mm, text):
         return ('error', e)
 
 
+def real_load_file(mm, text, path):
+    """the same through a model file holding exactly `text` (utf-8, written in binary mode)"""
+    from textx.exceptions import TextXSyntaxError, TextXSemanticError
+    with open(path, 'wb') as f:
+        f.write(text.encode('utf-8'))
+    try:
+        return ('ok', mm.model_from_file(path))
+    except TextXSyntaxError as e:
+        return ('syntax', e)
+    except TextXSemanticError as e:
+        return ('semantic', e)
+    except Exception as e:  # noqa
+        return ('error', e)
+
+
 class no_comment_position_cache:
     """root-cause model for a known finding (context manager): Arpeggio's
     Match.parse caches the position reached after skipping comments per input
